@@ -127,6 +127,14 @@ class Serializable(object):  # pylint: disable=too-few-public-methods
         return result
 
     @staticmethod
+    def _sorted_set(obj):
+        # iteration order of a set depends on insertion order and hash seed; serialization must not
+        try:
+            return sorted(obj)
+        except TypeError:
+            return sorted(obj, key=lambda item: item.name if isinstance(item, enum.Enum) else str(item))
+
+    @staticmethod
     def _json_traverse(obj, result_func):
         if isinstance(obj, enum.Enum):
             result = result_func(obj)
@@ -142,7 +150,9 @@ class Serializable(object):  # pylint: disable=too-few-public-methods
             ])
         elif hasattr(obj, '__dict__'):
             result = Serializable._json_traverse(obj.__dict__, result_func)
-        elif isinstance(obj, (list, tuple, frozenset, set)):
+        elif isinstance(obj, (frozenset, set)):
+            result = [Serializable._json_traverse(item, result_func) for item in Serializable._sorted_set(obj)]
+        elif isinstance(obj, (list, tuple)):
             result = [Serializable._json_traverse(item, result_func) for item in obj]
         else:
             result = result_func(obj)
@@ -256,7 +266,9 @@ class Serializable(object):  # pylint: disable=too-few-public-methods
             result = cls._markdown_result(obj._asdict(), level)
         elif hasattr(obj, '__dict__') or isinstance(obj, dict):
             result = cls._markdown_result_complex(obj, level)
-        elif isinstance(obj, (list, tuple, frozenset, set, ArrayBase)):
+        elif isinstance(obj, (frozenset, set)):
+            result = cls._markdown_result_list(cls._sorted_set(obj), level)
+        elif isinstance(obj, (list, tuple, ArrayBase)):
             result = cls._markdown_result_list(obj, level)
         elif isinstance(obj, (bytes, bytearray)):
             result = cls.post_text_encoder(bytes_to_hex_string(obj, separator=':', lowercase=False), level)
